@@ -656,17 +656,21 @@ func createListeners(addrs []string, opts ...Option) ([]*listener, *Options, err
 		options.EdgeTriggeredIO = false
 	}
 
-	listeners := make([]*listener, len(addrs))
-	for i, a := range addrs {
+	listeners := make([]*listener, 0, len(addrs))
+	for _, a := range addrs {
 		proto, addr, err := parseProtoAddr(a)
-		if err != nil {
-			return nil, nil, err
+		if err == nil {
+			var ln *listener
+			if ln, err = initListener(proto, addr, options); err == nil {
+				listeners = append(listeners, ln)
+				continue
+			}
 		}
-		ln, err := initListener(proto, addr, options)
-		if err != nil {
-			return nil, nil, err
+		// Don't leave the listeners that have been created so far behind.
+		for _, ln := range listeners {
+			ln.close()
 		}
-		listeners[i] = ln
+		return nil, nil, err
 	}
 
 	return listeners, options, nil
